@@ -405,6 +405,13 @@ def c07_corpus():
         # a call factor next to a factor that flatten reduces to 0 (C07-K2)
         pg.P1([["assign_call", ["<state>z"], "<func>g", [MUL(G(C(0)), ["/", C(0), DT])], {}]]),
     ]
+    # conditional expressions nested in either branch of another one, with an external call in the inner then / else branch,
+    # at top level and inside a guarded block (the derived statements must carry the enclosing guards: a call in a branch that
+    # is not selected must not happen)
+    for inner in (IF(LT(Z, C(0)), Y, F(Z)), IF(LT(Z, C(0)), F(Z), Y), IF(LT(Z, C(0)), G(Y), F(Z))):
+        for outer in (lambda e: IF(GT(Y, C(1)), e, Z), lambda e: IF(GT(Y, C(1)), Z, e)):
+            progs.append(pg.P1([["assign", "<state>y", outer(inner), []]]))
+            progs.append(pg.P1([["if", ["expr", GT(T, C(0))], [["assign", "<state>y", outer(inner), []]], [["assign", "<state>z", inner, []]]]]))
     # a tagged variable next to a user variable spelled like its identifier form (or like the eliminator's temporary
     # for it), both read and written by one statement, then both self-updated again
     for tagged in ("<p>k", "<state>z"):
